@@ -33,7 +33,7 @@ RULE = ('A text is assembled by construction from literal pieces (SQL words, quo
         'raw_sql() parse, or one live execution through an entry point (scope passed explicitly or taken from the calling frame). Non-trivial = the text has at least one '
         '$-expression AND (a literal %, a `$$`, a trailing `;`, or an expression that is not a bare name); for history '
         'steps additionally: an earlier step of the same case adapted the same text under another style or its '
-        '%/%%-variant under the same style. Re-typing cases: one query location with raw_sql() fragments (filter, '
+        '%/%%-variant under the same style, or a text whose adapted form is this step\'s source text (`$$$$` then `$$`, `$x` then a literal placeholder). Re-typing cases: one query location with raw_sql() fragments (filter, '
         'projection, ordering position; string query or function) run 2-3 times, forward and reversed, with values of '
         'different Python types for the same $ names; one case = one execution, non-trivial = some name is bound to a '
         'type that differs from an earlier execution at the same location. '
@@ -48,7 +48,8 @@ MIN_EVALS = {'quick': 12000, 'thorough': 300000}
 CLASS_FLOORS = {'live': 0.05, 'history': 0.12, 'hist:pct_pair': 0.004, 'hist:dependent_step': 0.25, 'f:pct': 0.15,
                 'f:dd': 0.10, 'f:semi': 0.10, 'f:paren': 0.10, 'f:call': 0.15, 'f:subscript': 0.08, 'f:attr': 0.15,
                 'f:nonascii': 0.06, 'f:newline': 0.06, 'style:pyformat': 0.07, 'style:raw': 0.05, 'entry:raw_if': 0.004,
-                'retype': 0.01, 'retype:retyped': 0.005}
+                'retype': 0.01, 'retype:retyped': 0.005,
+                'hist:adapted_source_pair': 0.004}
 
 HOME = os.path.dirname(os.path.dirname(os.path.abspath(__file__)))
 
@@ -98,6 +99,19 @@ def is_pct_pair(steps, k):
     return False
 
 
+def is_adapted_source_pair(steps, k):
+    """an earlier step adapted, under the same paramstyle, a text whose ADAPTED form is this step's source text"""
+    sql, style = R.assemble(steps[k]['parts']), steps[k]['style']
+    if style == 'raw':
+        return False
+    for j in range(k):
+        if steps[j]['style'] == style:
+            sj = R.assemble(steps[j]['parts'])
+            if sj != sql and R.ref_adapt(steps[j]['parts'], style)[0] == sql:
+                return True
+    return False
+
+
 def run_history_case(ctx, case, cls):
     outcomes = history_outcomes(case)
     steps = case['steps']
@@ -111,8 +125,12 @@ def run_history_case(ctx, case, cls):
             classes.append('hist:dependent_step')
         if is_pct_pair(steps, k):
             classes.append('hist:pct_pair')
+        asp = is_adapted_source_pair(steps, k)
+        if asp:
+            classes.append('hist:adapted_source_pair')
+            hist_nt = True
         key = [sql, style, [[R.assemble(s['parts']), s['style']] for s in steps[:k]] if hist_nt else None]
-        ctx.case(key=key, nontrivial=R.nontrivial(parts) or ('expr' in feats and hist_nt), classes=classes,
+        ctx.case(key=key, nontrivial=R.nontrivial(parts) or ('expr' in feats and hist_nt) or asp, classes=classes,
                  sample={'sql': sql, 'style': style, 'observed': R.jsonable_obs(obs),
                          'preceding_steps': k} if 'error' not in obs else None)
         if verdict is not None:
@@ -207,6 +225,21 @@ def run(ctx):
             pair.reverse()
         for p in pair:
             steps.insert(draw(st.integers(0, len(steps))), p)
+        # a forced chain: A changes when adapted; B's SOURCE is A's adapted text (`$$$$` -> `$$`, `$x` -> the placeholder
+        # written literally); C likewise from B when possible -- same style, forward or reversed, at drawn positions
+        a = draw(G.chain_texts(scope))
+        cstyle = draw(st.sampled_from(R.STYLES))
+        chain = [a]
+        while len(chain) < 3:
+            nxt = G.adapted_as_source(chain[-1], cstyle)
+            if nxt is None or R.assemble(nxt) == R.assemble(chain[-1]):
+                break
+            chain.append(nxt)
+        if draw(st.integers(0, 3)) == 0:
+            chain.reverse()
+        positions = sorted(draw(st.lists(st.integers(0, len(steps)), min_size=len(chain), max_size=len(chain))))
+        for n, (pos, c) in enumerate(zip(positions, chain)):
+            steps.insert(pos + n, {'parts': c, 'style': cstyle})
         steps = [s for s in steps if not (s['style'] == 'raw' and not s['parts'])]
         return {'kind': 'history', 'scope': scope, 'steps': steps}
 
